@@ -149,6 +149,52 @@ CHECKS.update({
             '(diagnostic handle)', '4/C17'),
 })
 
+CHECKS.update({
+    'C13': ('exploration',
+            'runtime monitoring: generate_stats on trees whose diffs are '
+            'assembled from hunks with counts known by construction; '
+            'additive / non-destructive / idempotence oracles on snapshots',
+            'K trees (0-4 changes x 0-5 files) with unix/dos, explicit / '
+            'implicit line endings, 8 diff encodings incl. UTF-16/32 and '
+            'EBCDIC, binary / empty / absent / unparsable diffs, '
+            'pre-existing stats with custom keys.',
+            'pre-existing stats are dicts of ints; first line decides '
+            'implicit line endings', '4/C13'),
+    'C14': ('exploration',
+            'runtime monitoring: real hunk parser (deal.raises + icontract '
+            'post-condition) vs a constructive hunk model; single-point '
+            'damages of every hunk; random line lists',
+            'K generated diffs in both modes, 4 damages per hunk, random '
+            'lists of lines and the empty list.',
+            'trailing marker in strict mode tolerated (n-1 or n processed); '
+            'markers carry no leading whitespace', '4/C14'),
+    'C18': ('exploration',
+            'runtime monitoring of operation histories over several live '
+            'trees: all-trees snapshot monitor at every step + id()-graph '
+            'alias detector with behavioural confirmation',
+            'K random histories of 30-200 operations over <= 6 live trees '
+            'sharing one DOM reader and one DOM writer object.',
+            'snapshots read public attributes only', '4/C18'),
+    'C19': ('exploration',
+            'runtime monitoring: every typed attribute (by reflection) x '
+            'value pool with whole-tree snapshot atomicity oracle; unknown '
+            'names; equality congruence under single-field perturbations',
+            'All 39 typed attributes x 33 values on K trees; 17 unknown '
+            'names x 3 entry points; K equal pairs with every single-field '
+            'and structural perturbation.',
+            'bool tolerated for int; perturbations change denotation',
+            '4/C19'),
+    'C20': ('exploration',
+            'runtime monitoring of the real Pygments lexer: lossless / '
+            'contiguous-offset oracle on random DiffX-shaped strings, header '
+            'token list vs serializer layout on writer-produced files, '
+            'watchdog for termination',
+            'K random strings up to 4 kB and K benign writer-produced UTF-8 '
+            'files.',
+            'Pygments from /venv; get_tokens_unprocessed is the lossless '
+            'interface', '4/C20'),
+})
+
 NOT_YET = {}
 
 
